@@ -665,3 +665,84 @@ def replay(repo, statements, state, bit_operator, coder='Decoder'):
     if len(res) != 1:
         raise AnalysisError('pipeline fold: process_statements forks into %d paths on a concrete template and script' % len(res))
     return res[0]
+
+
+def _json_data(v):
+    """What json.dumps / json.loads make of a to_dict() result: tuples and the repository's namedtuples become lists, everything else
+    must already be JSON data (a descriptor object left in the dictionary cannot be written out at all)."""
+    from sa.patheval import NT_FIELDS
+    if isinstance(v, Obj):
+        if v.cls in NT_FIELDS:
+            return [_json_data(v.fields[k]) for k in NT_FIELDS[v.cls]]
+        raise AnalysisError('pipeline fold: to_dict() leaves a %s object in its result: not JSON data' % v.cls)
+    if isinstance(v, (tuple, list)):
+        return [_json_data(x) for x in v]
+    if isinstance(v, dict):
+        return dict((k, _json_data(x)) for k, x in v.items())
+    if v is None or isinstance(v, (bool, int, float, str)):
+        return v
+    raise AnalysisError('pipeline fold: to_dict() result contains %r: not JSON data' % (v,))
+
+
+def _descriptor_index(members, acc=None):
+    acc = {} if acc is None else acc
+    for m in members:
+        if isinstance(m, Obj):
+            acc.setdefault(m.fields.get('id'), m)
+            f = m.fields.get('factor')
+            if isinstance(f, Obj):
+                acc.setdefault(f.fields.get('id'), f)
+            if isinstance(m.fields.get('members'), list):
+                _descriptor_index(m.fields['members'], acc)
+    return acc
+
+
+def save_and_load(repo, members):
+    """The compiled form of a concrete template written out and read back: CompiledTemplate.to_dict() folded, turned into JSON data,
+    and loads_compiled_template() folded on it with a table group that looks descriptors up among those of the template.
+    Returns (result of loading, statements of the loaded template)."""
+    from sa.patheval import Stub
+    cinit = repo.own_method('CompilerState', '__init__')
+    tpl = Obj('BufrTemplate', {'members': list(members), 'id': 999999, 'original_descriptor_ids': [0]})
+    tg = Obj('TableGroupStub', {'key': ('TG', 0)})
+    r0 = CompileInterp(repo, 'CompilerState').run_function(cinit, lambda: {'self': Obj('CompilerState', {}), cinit.params[1]: tg, cinit.params[2]: tpl}, self_class='CompilerState')
+    ok0 = [r for r in r0 if r.ok and isinstance(r.locals['self'].fields.get('decoded_values_all_subsets'), list)]
+    if not ok0:
+        raise AnalysisError('pipeline fold: CompilerState.__init__ could not be folded')
+    st = ok0[0].locals['self']
+    fi = repo.method('TemplateCompiler', 'process_members')
+    res = CompileInterp(repo, 'TemplateCompiler').run_function(fi, lambda: {'self': Obj('TemplateCompiler', {}), 'state': st, 'bit_operator': None, 'members': list(members)},
+                                                               self_class='TemplateCompiler')
+    if len(res) != 1 or not res[0].ok:
+        return res[0], None
+    compiled = st.fields['block_stack'][0]
+    td = repo.method(compiled.cls, 'to_dict')
+    r1 = CompileInterp(repo, compiled.cls).run_function(td, lambda: {'self': compiled}, self_class=compiled.cls)
+    if len(r1) != 1 or not r1[0].ok or not isinstance(r1[0].value, dict):
+        raise AnalysisError('pipeline fold: CompiledTemplate.to_dict could not be folded: %s' % [x.describe() for x in r1])
+    data = _json_data(r1[0].value)
+    index = _descriptor_index(members)
+
+    class LoadInterp(CompileInterp):
+        def on_call(self2, text, callee, args, kwargs, node, frame):
+            from sa.patheval import UnknownMethod, ModRef
+            if text == 'json.loads' or (isinstance(callee, UnknownMethod) and isinstance(callee.recv, ModRef) and callee.recv.name == 'json' and callee.name == 'loads'):
+                return data
+            if text.endswith('get_table_group_by_key'):
+                def lookup(interp, a, kw, node_, frame_):
+                    i = a[0]
+                    if i not in index:
+                        raise AnalysisError('pipeline fold: the loader looks up descriptor %r, which the template does not contain' % (i,))
+                    return index[i]
+                return Stub('table group', {'lookup': lookup, 'template_from_ids': lambda interp, a, kw, node_, frame_: tpl}, attrs={'key': ('TG', 0)})
+            return CompileInterp.on_call(self2, text, callee, args, kwargs, node, frame)
+    lf = repo.func('templatecompiler', 'loads_compiled_template')
+    r2 = LoadInterp(repo, None).run_function(lf, lambda: {lf.params[0]: 'JSON'})
+    if len(r2) != 1:
+        raise AnalysisError('pipeline fold: loads_compiled_template forks into %d paths on concrete JSON data' % len(r2))
+    if not r2[0].ok:
+        return r2[0], None
+    loaded = r2[0].value
+    if not (isinstance(loaded, Obj) and isinstance(loaded.fields.get('statements'), list)):
+        raise AnalysisError('pipeline fold: loads_compiled_template returns %r' % (loaded,))
+    return r2[0], loaded.fields['statements']
